@@ -194,6 +194,28 @@ MANIFEST["note"] += ("; link model: block numbers abstract (comparison by positi
                      "position the node model routes to; non-WAL images only")
 LINK_LEVELS = [0, 0, 1, 1, 2, 2, 3, 4, 5, 6]
 
+# writer of one node record (Model/KvNode.lean): the node clause ("non-empty, internally sorted, true prefix of its lowest key") by
+# induction over the operations of a one-node database
+THEOREMS += ["IwModel.C06." + t for t in (
+    "nodeinv_spec", "nodeinv_empty", "nodeinv_put", "nodeinv_del", "nodeinv_cursor_set", "nodeinv_cursor_del", "nodeinv_history",
+    "node_lookup_agrees", "node_find_pi", "node_find_pi_found_iff", "nodeinv_audit", "history_node_audit")]
+MODELLED_FUNCS['src/kv/iwkv.c'] += ['_sblk_find_pi_mm', '_sblk_insert_pi_mm', '_sblk_addkv2', '_sblk_addkv', '_sblk_updatekv', '_sblk_rmkv',
+                                   '_lx_sblk_cmp_key', '_lx_addkv', '_lx_del_lw']
+MANIFEST["text"] += ("; the node clause is proved inductively on a writer model of ONE node record (IwModel.KvNode: flags/SBLK_FULL_LKEY, lkl, "
+                     "pnum, pi[], cached first key lk[], data block = the KvBlk model; _sblk_find_pi_mm binary search, _sblk_insert_pi_mm, "
+                     "_sblk_addkv, _sblk_addkv2, _sblk_updatekv, _sblk_rmkv with the cache refresh rules, _lx_sblk_cmp_key, routing of put / del / "
+                     "cursor set / cursor del for a database within one node): NodeInv (pi = permutation of the used slots, keys strictly "
+                     "descending, pnum = number of records, lkl = min(len,115), cached bytes = prefix, FULL_LKEY iff len <= 115) is kept by every "
+                     "operation and history (nodeinv_*), the binary search returns the position / insertion point (node_find_pi), the lookup through "
+                     "the cached prefix has the sign of the full comparison (node_lookup_agrees, from the C19 comparator theorems), and a NodeInv "
+                     "node passes the node part of the audit (nodeinv_audit, through blkinv_checkSlots for the block); after EVERY operation of "
+                     "generated one-node histories (plain and compound byte keys, keys longer than 115 bytes sharing their first 115 bytes) the "
+                     "model node is compared with the node record the Lean reader finds in the file: pnum, pi[0..pnum), lkl, cached bytes, "
+                     "FULL_LKEY bit, plus the data block")
+MANIFEST["note"] += ("; node model: one node only (no split, no second node), byte-string comparator only (integer / real key modes not in the "
+                     "node model), node address / level / links / page slot abstract (link model), stale pi[] entries beyond pnum and stale lk[] bytes "
+                     "beyond lkl not compared")
+
 
 def gen_link_history(r, nbulk, nwaves, cursors=False):
     """one or two plain-key databases; every put/del is followed by `nodes` and `image`.  With `cursors`, some waves
@@ -829,6 +851,223 @@ def explore_block(ctx, h, drv, n, nops, label):
                         pass
 
 
+# ---------------------------------------------------------------- single node record: writer model `IwModel.KvNode`
+#
+# One database, at most 32 distinct keys (one node, never a split), an image after EVERY operation.  `drv kvnode` replays the ops
+# on the node writer model and compares, at every image, the node record the Lean format reader finds in the file with the model:
+# pnum, pi[0..pnum), lkl, the lkl cached key bytes, the SBLK_FULL_LKEY bit - and the data block like the block stream.
+# Key families aim at the cached first key (115 bytes): short keys, keys of 113..118 bytes, keys longer than 115 bytes that share
+# their first 115 bytes, prefixes of one long string, compound keys whose vnum prefix eats into the cache.  Every history starts
+# with directed steps: delete the first key when the next one is longer / shorter than the cache / shares the cached bytes,
+# overwrite the first key with a value that makes the record move, insert in front of the first key.
+
+NODE_PROFILES = ["short", "edge", "longshared", "prefixes", "mixed", "compound", "longshared", "mixed", "compound-long"]
+NODE_STEP = re.compile(r"^(put|del|cur \d+ set|cur \d+ del) ")
+
+
+def node_universe(r, profile):
+    """at most 32 keys (body, compound part)"""
+    base = bytes(r.randrange(1, 255) for _ in range(220))
+    nk = r.choice([5, 9, 16, 24, 32, 32])
+    keys = set()
+    comp = profile.startswith("compound")
+
+    def rnd(n):
+        return bytes(r.randrange(256) for _ in range(n))
+    fam = profile
+    guard = 0
+    while len(keys) < nk and guard < 4000:
+        guard += 1
+        f = fam if fam not in ("mixed", "compound", "compound-long") else r.choice(["short", "edge", "longshared", "prefixes"] if fam != "compound-long" else ["edge", "longshared", "prefixes"])
+        if f == "short":
+            k = rnd(r.choice([1, 2, 3, 8, 20, 40]))
+        elif f == "edge":                       # around the cache size, common start, differences near the end
+            L = r.choice([110, 113, 114, 115, 115, 116, 117, 118, 127, 128])
+            k = bytearray(base[:L])
+            for _ in range(r.choice([0, 1, 1, 2])):
+                k[r.choice([L - 1, L - 1, max(0, L - 2), min(L - 1, 114), min(L - 1, 113), r.randrange(L)])] = r.randrange(256)
+            k = bytes(k)
+        elif f == "longshared":                 # longer than the cache, the first 115 bytes are the same
+            k = base[:115] + rnd(r.choice([1, 1, 2, 5, 30, 80]))
+        else:                                   # prefixes of one string: the shorter key is a prefix of the longer one
+            k = base[:r.choice([1, 2, 50, 100, 112, 113, 114, 115, 116, 117, 118, 119, 130, 200])]
+        c = 0
+        if comp:
+            c = r.choice([0, 1, 127, 128, 300, 16383, 16384, 20000, 1 << 21, 1 << 35, (1 << 62) + 5])
+        keys.add((k, c))
+    keys = sorted(keys)
+    if comp and len(keys) < 32:
+        # same body, different compound parts: ties on the body are broken by the compound part
+        for (k, c) in list(keys)[:4]:
+            if len(keys) < 32:
+                keys.append((k, c + 1))
+        keys = sorted(set(keys))
+    return keys[:32]
+
+
+def gen_node_history(r, nops, profile):
+    comp = profile.startswith("compound")
+    keys = node_universe(r, profile)
+    order = lambda e: (e[0], e[1]) if comp else (e[0],)
+    if not comp:
+        keys = [(k, 0) for k in sorted(set(k for k, _ in keys))]
+    live = {}
+    ops = ["open 0 1 0", "db 1 %d" % (G.COMPOUND if comp else 0)]
+    nimg = [0]
+
+    def img():
+        nimg[0] += 1
+        ops.append("image @IMG%d" % nimg[0])
+
+    def vsize():
+        x = r.random()
+        return r.choice([0, 1, 2, 5, 9]) if x < 0.6 else r.choice([20, 40, 90, 130, 300]) if x < 0.95 else r.choice([600, 1500])
+
+    def put(e, n=None):
+        n = vsize() if n is None else n
+        ops.append("put 1 %s %d %s 0 0" % (G.H(e[0]), e[1], G.H(_val(r, n))))
+        live[e] = n
+        img()
+
+    def cset(e, n=None):
+        n = vsize() if n is None else n
+        ops.append("cur 0 open 1 eq %s %d" % (G.H(e[0]), e[1]))
+        ops.append("cur 0 set %s 0" % G.H(_val(r, n)))
+        ops.append("cur 0 close")
+        if e in live:
+            live[e] = n
+        img()
+
+    def dele(e):
+        ops.append("del 1 %s %d" % (G.H(e[0]), e[1]))
+        live.pop(e, None)
+        img()
+
+    def cdel(e):
+        ops.append("cur 0 open 1 eq %s %d" % (G.H(e[0]), e[1]))
+        ops.append("cur 0 del")
+        ops.append("cur 0 close")
+        live.pop(e, None)
+        img()
+
+    def first():
+        return max(live, key=order) if live else None
+
+    def stored_len(e):
+        return len(e[0]) + (len(_vnum(e[1])) if comp else 0)
+
+    # directed: the first key goes, the next one is long / short / shares the cached bytes
+    longs = [e for e in keys if stored_len(e) > 115]
+    shorts = [e for e in keys if stored_len(e) <= 115]
+    for _ in range(3):
+        pair = None
+        kind = r.choice(["short>long", "long>short", "long>long", "any"])
+        if kind == "short>long" and longs and shorts:
+            pair = (r.choice(shorts), r.choice(longs))
+        elif kind == "long>short" and longs and shorts:
+            pair = (r.choice(longs), r.choice(shorts))
+        elif kind == "long>long" and len(longs) > 1:
+            pair = tuple(r.sample(longs, 2))
+        elif len(keys) > 1:
+            pair = tuple(r.sample(keys, 2))
+        if not pair:
+            continue
+        a, b = sorted(pair, key=order)
+        for e in sorted(live, key=order):
+            if order(e) >= order(a):
+                dele(e)                                           # nothing above the pair
+        put(a)                                                    # (the smaller one first ...
+        put(b)                                                    #  ... so that the greater one is inserted in front of the first key)
+        (cset if r.random() < 0.5 else put)(b, r.choice([300, 700]))      # overwrite of the first key, the record moves
+        (cdel if r.random() < 0.4 else dele)(b)                   # the first key goes, `a` becomes the first key
+        put(b, 3)
+        dele(a)                                                   # a delete behind the first key leaves the cache alone
+    while nimg[0] < nops:
+        x = r.random()
+        e = r.choice(keys)
+        f = first()
+        if x < 0.36:
+            put(e)
+        elif x < 0.44 and f is not None:                          # insert in front of the first key
+            above = [k for k in keys if order(k) > order(f)]
+            put(r.choice(above) if above else e)
+        elif x < 0.52 and f is not None:                          # overwrite of the first key
+            (cset if r.random() < 0.5 else put)(f)
+        elif x < 0.58 and live:
+            cset(r.choice(sorted(live)))
+        elif x < 0.60:
+            cset(e)
+        elif x < 0.72 and f is not None:                          # the first key goes
+            (cdel if r.random() < 0.4 else dele)(f)
+        elif x < 0.90:
+            (cdel if r.random() < 0.3 else dele)(r.choice(sorted(live)) if live and r.random() < 0.85 else e)
+        elif x < 0.95 and live:
+            for kk in sorted(live, key=order, reverse=True)[:r.choice([2, 5, 40])]:      # drain from the front
+                dele(kk)
+        else:
+            for kk in [k for k in keys if k not in live]:          # fill up to the whole universe (32 keys: a full node)
+                put(kk)
+    ops += ["dump 1", "close", "image @IMGclosed"]
+    return ops
+
+
+def _vnum(n):
+    out = bytearray()
+    while True:
+        if n < 128:
+            out.append(n)
+            return bytes(out)
+        out.append(~(n & 0x7f) & 0xff)          # only the length matters here
+        n >>= 7
+
+
+def explore_node(ctx, h, drv, n, nops, label):
+    r = C.Rng(ctx.seed, "c06node/" + label)
+    d = os.path.join(C.scratch(), "imgn")
+    os.makedirs(d, exist_ok=True)
+    cases = []
+    for i in range(n):
+        prof = NODE_PROFILES[i % len(NODE_PROFILES)]
+        ops = [l.replace("@IMG", os.path.join(d, "%s-%d-" % (label, i))) for l in gen_node_history(r, nops, prof)]
+        cases.append(Case("node-" + prof, ops, block_oracle(ops), key=hash(tuple(ops))))
+    ctx.sample(dict(kind="node-history", n_ops=len(cases[0].ops), first_ops=[l[:80] for l in cases[0].ops[:6]]))
+    canon = lambda l: "image" if l.startswith("image ") and not l.startswith("image 0") and not l.startswith("image -1") else ("dump" if l.startswith("dump ") else l)
+    crashed = False
+    for a in range(0, len(cases), 8):
+        if crashed:
+            break
+        chunk = cases[a:a + 8]
+        probs = differential(ctx, [h, C.scratch() + "/kv6n-%s.db" % label], [drv, "kvnode"], chunk, timeout=60, canon=canon)
+        crashed = crashed or any(p[0] == "crash" for _, p in probs)
+        for c, p in probs:
+            if p[0] == "diverge" and (p[3].startswith("image BAD") or p[3].startswith("image UNREADABLE")):
+                ctx.hist("node:audit-bad")
+                cls = re.sub(r"\d+", "N", p[3])[:70]
+                ctx.fail(dict(kind="audit", cls=cls, stream="node"), dict(ops=[l for l in c.ops[:p[1]] if not l.startswith("image ")] + [c.ops[p[1]]], audit=p[3][:300]),
+                         "file image not well-formed after op %d: %s" % (p[1], p[3][:300]))
+            elif p[0] == "diverge":
+                ctx.hist("node:diverge")
+                ctx.corr_broken.append("node writer model / implementation diverge at op %d `%s`: impl `%s` model `%s` (history prefix: %s)" % (
+                    p[1], c.ops[p[1]][:80], p[2][:100], p[3][:300], [l[:60] for l in c.ops[max(0, p[1] - 4):p[1]]]))
+            else:
+                ctx.fail(c01.signature(c, p), dict(ops=c.ops, detail=p[1:]), str(p[1])[:400])
+        rc, tr, _ = C.run_lines([drv, "kvnode-trace"], [l for c in chunk for l in c.ops], timeout=300)
+        for l in tr:
+            for w in l.split()[2:]:
+                if ":" in w:
+                    ctx.hist("node:" + w)
+        for c in chunk:
+            if c.model is not None:
+                ctx.hist("node:images", sum(1 for l in c.model if l == "image"))
+                ctx.hist("node:steps", sum(1 for l in c.ops if NODE_STEP.match(l)))
+            for l in c.ops:
+                if l.startswith("image "):
+                    try:
+                        os.unlink(l.split()[1])
+                    except OSError:
+                        pass
+
+
 # ---------------------------------------------------------------- oversize records: a refused put must leave the block as it was
 
 MAXKVSZ = 0xfffffff
@@ -921,9 +1160,18 @@ def run(ctx):
         explore_oversize(ctx, h, drv, 2 if ctx.tier == "quick" else 8, "o")
         if ctx.tier == "quick":
             explore_block(ctx, h, drv, 40, 150, "bq")
+            explore_node(ctx, h, drv, 27, 100, "nq")
         else:
+            explore_node(ctx, h, drv, 270, 150, "nt")
+            explore_node(ctx, h, drv, 18, 1200, "ntl")
             explore_block(ctx, h, drv, 400, 200, "bt")
             explore_block(ctx, h, drv, 20, 1500, "btl")
+    if drv:
+        ctx.cov["rule"] += ("; node stream: the same shape of history with key families aimed at the cached first key (short keys, 113..118 bytes, keys "
+                            "longer than 115 bytes with a common 115-byte start, prefixes of one string, compound keys), directed steps (the first key goes "
+                            "and the next one is long / short / shares the cached bytes, overwrite of the first key with a moving record, insert in front of "
+                            "the first key), puts, deletes, cursor sets and cursor deletes: the Lean node writer model (IwModel.KvNode) must equal the node "
+                            "record in the file (pnum, pi, lkl, cached bytes, FULL_LKEY bit) and its data block after EVERY op")
     if (ctx.proof_broken or ctx.corr_broken) and not ctx.violations:
         explore(ctx, h, drv, 80, 250, "search")
 
